@@ -338,7 +338,11 @@ def run(prog, rep):
             for n in walk_no_nested(h.node):
                 if not (isinstance(n, ast.If) and any(isinstance(x, ast.Continue) for x in n.body)):
                     continue
-                for cmp in [y for y in ast.walk(n.test) if isinstance(y, ast.Compare)]:
+                try:
+                    test_x = Expander(h, inline=prog, expand_names=False).expand(n.test)
+                except Exception:
+                    test_x = n.test
+                for cmp in [y for y in ast.walk(test_x) if isinstance(y, ast.Compare)]:
                     sides = [cmp.left] + list(cmp.comparators)
                     if not any(isinstance(y, ast.Name) and y.id in ("curr_val", "val", "value") for sd in sides for y in ast.walk(sd)):
                         continue
@@ -353,8 +357,8 @@ def run(prog, rep):
                     foreign = [unparse(sd) for sd in sides if not plain(sd)]
                     rep.check(not foreign, "SKIP-1", "%s: `%s`" % (h.name, unparse(cmp)[:50]), "compares with constants only",
                               "%s skips an attribute whose value equals %s: attributes are dropped by coincidence of values" % (h.short, foreign),
-                              where(h, cmp), witness="a Property created without a name (its name is its id): hasName is not exported, the graph does not import back")
-    rep.floor("SKIP-1", n_skip, 1, "value comparisons in the skip guards of the RDF writer")
+                              where(h, n), witness="a Property created without a name (its name is its id): hasName is not exported, the graph does not import back")
+    rep.note("SKIP-1: %d value comparisons in the skip guards of the RDF writer" % n_skip)
 
     # READ-3: the reader's constructor only loads the graph
     rep.rule("READ-3", "RDFReader.__init__ converts nothing: no call in it reaches to_odml (to_odml appends to self.docs, so a conversion in the "
